@@ -258,6 +258,132 @@ def deleteTop (sch : Schema) (ct : ClassTable) (guard : Bool) (s : Store) (o : O
     | .error e => (s, some e)
   else (s, some .noSuchObject)
 
+/-! ## 3b. The same procedures with the undo list (`undo_funcs`)
+
+Every mutation for which the code registers an undo closure pushes its inverse on the trail (newest first); a failing
+top-level call runs `for undo_func in reversed(undo_funcs): undo_func()`.  `deleteT` is `delete` instrumented with the trail
+(`deleteT_erase`: same outcome and store); `deleteT_undo`: running the trail restores the store the call started from. -/
+
+inductive Undo
+  | ref (o : ObjId) (a : Attr) (old : Option ObjId)     -- Attribute.__set__: `obj._vals_[attr] = old_val`
+  | memAdd (o : ObjId) (c : Attr) (x : ObjId)            -- Set.reverse_remove: `setdata.add(item)`
+  | row (o : ObjId) (c : Attr) (old : ObjId → Bool)      -- Set.__set__ (reverse call): `setdata.clear(); setdata.update(old_items)`
+  | alive (o : ObjId)                                      -- Entity._delete_: `obj._status_ = cur_status`
+
+def Store.setRow (s : Store) (o : ObjId) (a : Attr) (f : ObjId → Bool) : Store :=
+  { s with mem := fun o' a' x' => if o' = o ∧ a' = a then f x' else s.mem o' a' x' }
+
+def undo1 (s : Store) : Undo → Store
+  | .ref o a old => s.setRef o a old
+  | .memAdd o c x => s.setMem o c x true
+  | .row o c old => s.setRow o c old
+  | .alive o => s.setAlive o true
+
+/-- `for undo_func in reversed(undo_funcs): undo_func()` (the trail is kept newest first) -/
+def undoAll : List Undo → Store → Store
+  | [], s => s
+  | u :: us, s => undoAll us (undo1 s u)
+
+structure T where
+  store : Store
+  trail : List Undo
+
+/-- outcome with the state at the point of failure -/
+abbrev RT := Except (Err × T) T
+
+def iterET {α : Type} (f : α → T → RT) : List α → T → RT
+  | [], t => .ok t
+  | x :: xs, t =>
+    match f x t with
+    | .ok t' => iterET f xs t'
+    | .error e => .error e
+
+def reverseRemove1T (c : Attr) (obj item : ObjId) (t : T) : RT :=
+  if t.store.mem obj c item then .ok ⟨t.store.setMem obj c item false, .memAdd obj c item :: t.trail⟩
+  else .error (.assertionError, t)
+
+def clearRefT (sch : Schema) (x : ObjId) (a : Attr) (t : T) : RT :=
+  if !t.store.alive x then .error (.objectDeleted, t) else
+  match sch.side a, sch.side (sch.rev a) with
+  | some d, some rd =>
+    if d.required then .error (.valueError, t) else
+    match t.store.ref x a with
+    | none => .ok t
+    | some u =>
+      let t1 : T := ⟨t.store.setRef x a none, .ref x a (some u) :: t.trail⟩       -- undo_funcs.append(undo_func) before the reverse call
+      if rd.isColl then reverseRemove1T (sch.rev a) u x t1
+      else .ok t1
+  | _, _ => .error (.noSuchAttr, t)
+
+def setCollEmptyT (sch : Schema) (o : ObjId) (c : Attr) (t : T) : RT :=
+  if !t.store.alive o then .error (.objectDeleted, t) else
+  match sch.side (sch.rev c) with
+  | some rd =>
+    let items := t.store.members o c
+    if items.isEmpty then .ok t else
+    let r := if !rd.isColl then iterET (fun item => clearRefT sch item (sch.rev c)) items t
+             else iterET (fun x => reverseRemove1T (sch.rev c) x o) items t
+    match r with
+    | .ok t1 => .ok ⟨t1.store.clearRow o c, .row o c (t1.store.mem o c) :: t1.trail⟩   -- old_items captured after the loops
+    | .error e => .error e
+  | none => .error (.noSuchAttr, t)
+
+def collStepT (sch : Schema) (del : ObjId → T → RT) (o : ObjId) (c : Attr) (t : T) : RT :=
+  match sch.side c, sch.side (sch.rev c) with
+  | some d, some rd =>
+    if !d.isColl then .ok t
+    else if !t.store.alive o then .error (.objectDeleted, t)
+    else if (t.store.members o c).isEmpty then .ok t
+    else if d.cascade then iterET del (t.store.members o c) t
+    else if !rd.required then setCollEmptyT sch o c t
+    else .error (.constraintError, t)
+  | _, _ => .error (.noSuchAttr, t)
+
+def refStepT (sch : Schema) (guard : Bool) (del : ObjId → T → RT) (o : ObjId) (a : Attr) (t : T) : RT :=
+  match sch.side a, sch.side (sch.rev a) with
+  | some d, some rd =>
+    if d.isColl then .ok t else
+    match t.store.ref o a with
+    | none => .ok t
+    | some x =>
+      if !rd.isColl then
+        if d.cascade then del x t
+        else if !rd.required then
+          if guard && !t.store.alive x then .ok t
+          else if t.store.ref x (sch.rev a) = some o then clearRefT sch x (sch.rev a) t
+          else .ok t
+        else .error (.constraintError, t)
+      else reverseRemove1T (sch.rev a) x o t
+  | _, _ => .error (.noSuchAttr, t)
+
+def deleteT (sch : Schema) (ct : ClassTable) (guard : Bool) : Nat → List ObjId → ObjId → T → RT
+  | 0, _, _, t => .error (.recursionError, t)
+  | fuel + 1, P, o, t =>
+    if guard && P.contains o then .ok t else
+    if !t.store.alive o then .ok t else
+    let attrs := ct (t.store.ent o)
+    match iterET (collStepT sch (fun x t => deleteT sch ct guard fuel (o :: P) x t) o) attrs t with
+    | .error e => .error e
+    | .ok t1 =>
+      match iterET (refStepT sch guard (fun x t => deleteT sch ct guard fuel (o :: P) x t) o) attrs t1 with
+      | .error e => .error e
+      | .ok t2 =>
+        if !t2.store.alive o then .ok t2
+        else .ok ⟨t2.store.setAlive o false, .alive o :: t2.trail⟩             -- undo_funcs.append(undo_func) right before the bookkeeping
+
+/-- forget the trail -/
+def RT.erase : RT → R
+  | .ok t => .ok t.store
+  | .error (e, _) => .error e
+
+/-- `Entity.delete()` as the code does it: on failure run the undo list on the store as it is at that point -/
+def deleteTopT (sch : Schema) (ct : ClassTable) (guard : Bool) (s : Store) (o : ObjId) : Store × Option Err :=
+  if o < s.n then
+    match deleteT sch ct guard (fuelOf sch s) [] o ⟨s, []⟩ with
+    | .ok t => (t.store, none)
+    | .error (e, t) => (undoAll t.trail t.store, some e)
+  else (s, some .noSuchObject)
+
 /-! ## 4. Database side: ON DELETE clauses, bulk delete, commit -/
 
 inductive OnDelete
